@@ -82,6 +82,12 @@ func sortStrings(s []string) {
 // Bootstrap: every validator registers its external accounts on all chains, sends a keep-alive
 // and sets a relayer fee (one block, real txs). Returns an error text if a tx failed.
 func Bootstrap(c *chain.Chain, vals []*chain.Account, chains []string) error {
+	return BootstrapFees(c, vals, chains, chains)
+}
+
+// BootstrapFees is Bootstrap with relayer fees set only for feeChains (a chain whose validators
+// have not set a relayer fee yet has no eligible relayer).
+func BootstrapFees(c *chain.Chain, vals []*chain.Account, chains, feeChains []string) error {
 	for _, v := range vals {
 		if err := c.QueueTx(v, 0, MsgRegister(v, chains)); err != nil {
 			return err
@@ -90,7 +96,7 @@ func Bootstrap(c *chain.Chain, vals []*chain.Account, chains []string) error {
 			return err
 		}
 		fees := map[string]string{}
-		for _, ch := range chains {
+		for _, ch := range feeChains {
 			fees[ch] = "1.1"
 		}
 		if err := c.QueueTx(v, 2, MsgRelayerFee(v, fees)); err != nil {
